@@ -398,6 +398,29 @@ static void warm_up(void)
     (void)descend_big(&w, (uintptr_t)__builtin_frame_address(0), 5 * BIG, 0);
 }
 
+static void nop_body(void *arg)
+{
+    (void)arg;
+}
+
+/* ASan prints its one-time "ignoring requested __asan_handle_no_return"
+ * warning from the exit path of the first ULT that terminates; the printing
+ * needs several KiB of stack.  Let that happen on a roomy stack. */
+static void first_exit_on_big_stack(ABT_pool pool)
+{
+#ifdef __SANITIZE_ADDRESS__
+    ABT_thread_attr at;
+    ABT_thread th;
+    OK(ABT_thread_attr_create(&at));
+    OK(ABT_thread_attr_set_stacksize(at, 256 * 1024));
+    OK(ABT_thread_create(pool, nop_body, NULL, at, &th));
+    OK(ABT_thread_attr_free(&at));
+    OK(ABT_thread_free(&th));
+#else
+    (void)pool;
+#endif
+}
+
 static void scenario(int cfg)
 {
     C = &cfgs[cfg];
@@ -417,6 +440,7 @@ static void scenario(int cfg)
             abtmc_std_env();
             setenv("ABT_THREAD_STACKSIZE", v, 1);
             OK(ABT_init(0, NULL));
+            first_exit_on_big_stack(h_main_pool(h_self_xstream()));
             one_case(h_main_pool(h_self_xstream()), PV_DEFAULT, s, 0);
             OK(ABT_finalize());
             abtmc_check(abtmc_ledger_live() == 0, "stack_leak",
@@ -426,6 +450,7 @@ static void scenario(int cfg)
     } else {
         h_init();
         ABT_pool pool = h_main_pool(h_self_xstream());
+        first_exit_on_big_stack(pool);
         if (C->prov == PV_MALLOC) {
             for (int d = shard * 16; d < shard * 16 + 16; d++) {
                 one_case(pool, PV_MALLOC, C->base + (size_t)d, 0);
